@@ -973,7 +973,10 @@ func (a *Authenticator) validateTokenAndDeriveKeys(authData *TokenAuthData, nego
 		return fmt.Errorf("token validation failed: %w", err)
 	}
 
-	// Extract subject from claims
+	// Extract subject from claims. The identity comes from the token alone: the
+	// name the client sent in step 1 is discarded first, so that a token without
+	// a subject is refused rather than accepted under the client's own claim.
+	authData.ClientID = ""
 	if sub, ok := claims["sub"]; ok {
 		if subStr, ok := sub.(string); ok {
 			authData.ClientID = subStr
